@@ -109,6 +109,71 @@ def resolve(tval, tree):
     return tval
 
 
+def pathinfo_entry(name, inputs, output, sd, nested, res):
+    """the finder built from an opt_einsum PathInfo instead of a tree: same
+    obligations (forbidden indices, predictions equal the really sliced
+    tree)"""
+    import cotengra as ctg
+    import opt_einsum as oe
+    from cotengra.slicer import SliceFinder
+
+    n = len(inputs)
+    if max(sd.values()) > 10 ** 4 or any(len(set(t)) != len(t) or not t
+                                         for t in inputs):
+        return
+    eq = ",".join("".join(t) for t in inputs) + "->" + "".join(output)
+    shapes = [tuple(sd[ix] for ix in t) for t in inputs]
+    tree0 = ctg.ContractionTree.from_path(
+        inputs, output, sd, ssa_path=U.tree_to_ssa(nested, n))
+    try:
+        _, info = oe.contract_path(eq, *shapes, shapes=True,
+                                   optimize=tree0.get_path())
+        tree = ctg.ContractionTree.from_info(info)
+    except Exception:
+        res.stat("pathinfo_unavailable")
+        return
+    for outer in (True, False, "only"):
+        for kw in ({"target_slices": 2}, {"target_slices": 4},
+                   {"target_size": max(1, int(tree.max_size()) // 2)}):
+            for temp, sd_ in ((0.01, 0), (1.0, 0), (1.0, 1)):
+                res.evals += 1
+                case = {"net": name, "tree": nested, "entry": "PathInfo",
+                        "target": kw, "allow_outer": outer,
+                        "temperature": temp, "seed": sd_}
+                try:
+                    ix_sl, cost = SliceFinder(
+                        info, allow_outer=outer, temperature=temp,
+                        seed=sd_, **kw).search(2)
+                except Exception as e:
+                    res.stat("search_raised:" + type(e).__name__)
+                    continue
+                res.key((name, nested, "info", str(kw), outer, temp, sd_))
+                bad = []
+                if outer is False and set(ix_sl) & set(output):
+                    bad.append(("forbidden-output-index-chosen",
+                                sorted(set(ix_sl) & set(output))))
+                if outer == "only" and not set(ix_sl) <= set(output):
+                    bad.append(("forbidden-inner-index-chosen",
+                                sorted(set(ix_sl) - set(output))))
+                t2 = tree.copy()
+                for ix in sorted(ix_sl):
+                    t2.remove_ind_(ix)
+                st = t2.contract_stats()
+                if (cost.size, cost.total_flops, cost.nslices) != (
+                        st["size"], st["flops"], t2.nslices):
+                    bad.append(("prediction-differs-from-sliced-tree",
+                                (cost.size, cost.total_flops, cost.nslices),
+                                (st["size"], st["flops"], t2.nslices)))
+                if "target_size" in kw and st["size"] > kw["target_size"]:
+                    bad.append(("target_size-not-met",))
+                if "target_slices" in kw and \
+                        t2.nslices < kw["target_slices"]:
+                    bad.append(("target_slices-not-met",))
+                if bad:
+                    res.violation("slicefinder:pathinfo:" + str(bad[0][0]),
+                                  case, bad[:3])
+
+
 def work(unit):
     import cotengra as ctg
     from cotengra.slicer import SliceFinder
@@ -120,6 +185,7 @@ def work(unit):
     nested = tree_list(n, tier)[ti]
     inds = U.used_inds(inputs)
     grid = option_grid(tier)
+    pathinfo_entry(name, inputs, output, sd, nested, res)
     for pre in [None, inds[0], inds[-1]]:
         base = ctg.ContractionTree.from_path(
             inputs, output, sd, ssa_path=U.tree_to_ssa(nested, n))
